@@ -385,10 +385,16 @@ PLazyLaws(c, r) ==
 Sane(c, r) == /\ PLogOfTerm(c, r.log) /\ PNoDup(r.log) /\ PLeftToRight(r.log) /\ PFirstFirst(c, r)
               /\ PBodyLast(c, r.log) /\ PStrictTotal(c, r) /\ PLazyLaws(c, r)
 SaneAndEmit == LET c == Case r == Eval(c) IN Sane(c, r) /\ PrintT(ToJson(Line(c, r)))
-\* the whole table of this chunk: every case is numbered, evaluated, checked against the sanity laws and printed
-TableOK == LET cs == CaseSeq IN
-           \A n \in {m \in 1..Len(cs) : m % NChunks = Chunk} :
-              LET c == Number(cs[n]) r == Eval(c) IN Sane(c, r) /\ PrintT(ToJson(LineN(n, c, r)))
+\* the whole table of this chunk: every case is numbered, evaluated, checked against the sanity laws and printed.
+\* The term sets are walked directly (no sequence of the whole universe is built); a cheap structural hash
+\* assigns every term to one of the NChunks parallel TLC processes.
+RECURSIVE THash(_)
+THash(t) == (t.v + Len(t.a) + (IF Len(t.a) = 0 THEN 0
+                               ELSE 3 * THash(t.a[1]) + (IF Len(t.a) > 1 THEN 5 * THash(t.a[Len(t.a)]) ELSE 0))) % 9973
+Row(t) == (THash(t) % NChunks = Chunk) =>
+            LET c == Number(t) r == Eval(c) IN Sane(c, r) /\ PrintT(ToJson(LineN(0, c, r)))
+TableOK == /\ (\A t \in B2r : Row(t)) /\ (\A t \in I2r : Row(t)) /\ (\A t \in O2r : Row(t)) /\ (\A t \in A2r : Row(t))
+           /\ (\A t \in D2 : Row(t)) /\ (\A t \in S2 : Row(t)) /\ (\A t \in Sampled : Row(t))
 ASSUME TableOK
 
 LogOfTerm   == LET c == Case r == Eval(c) IN PLogOfTerm(c, r.log)
